@@ -386,11 +386,7 @@ func extractPoints(points []Point, now Timestamp, maxRetention Duration) (curren
 	for i := len(points) - 1; i >= 0; i-- {
 		p := points[i]
 		if p.Time <= maxAge {
-			if i > 0 {
-				return points[i+1:], points[:i+1]
-			} else {
-				return Points{}, points
-			}
+			return points[i+1:], points[:i+1]
 		}
 	}
 	return points, remainingPoints
